@@ -166,3 +166,62 @@ ITEMS += [
           [P('prev', 'prev', 64), P('size', 'size', 64)], 'Nat',
           [(r'file_offset_\[i\]', 'prev'), (r'files_\[i\]\.size', 'size')]),
 ]
+
+# ---- InputSplitShuffle (include/dmlc/input_split_shuffle.h) ---------------------------------------------------
+ISS = 'include/dmlc/input_split_shuffle.h'
+
+
+def _block(text, start_re):
+    m = re.search(start_re, text)
+    if not m:
+        raise cexpr.ParseError('not found: ' + start_re)
+    i = text.index('{', m.end() - 1)
+    depth, j = 0, i
+    while j < len(text):
+        if text[j] == '{':
+            depth += 1
+        elif text[j] == '}':
+            depth -= 1
+            if depth == 0:
+                return text[i:j + 1]
+        j += 1
+    raise cexpr.ParseError('unbalanced braces after ' + start_re)
+
+
+def shuffle_reset(text):
+    """InputSplitShuffle::ResetPartition: the index expression it hands to the inner split, and whether it stores
+    the new rank in part_index_ (finding C05-F2: without it the later sub-parts are taken from the old part)"""
+    body = re.sub(r'//[^\n]*', '', _block(text, r'virtual void ResetPartition\(unsigned rank, unsigned nsplit\) \{'))
+    sets = re.search(r'\bpart_index_ = rank;', body) is not None
+    m = re.search(r'int idx = shuffle_indexes_\[0\] \+ rank \* num_shuffle_parts_;\s*source_->ResetPartition\(idx, nsplit \* num_shuffle_parts_\);\s*cur_shuffle_idx_ = 0;', body)
+    chk = re.search(r'CHECK\(nsplit == num_parts_\)', body) is not None
+    if not m or not chk:
+        raise cexpr.ParseError('InputSplitShuffle::ResetPartition does not have the modelled shape')
+    return ('-- %s InputSplitShuffle::ResetPartition: `idx = shuffle_indexes_[0] + rank * num_shuffle_parts_`, reset of the\n'
+            '-- inner split to (idx, nsplit * num_shuffle_parts_), `cur_shuffle_idx_ = 0` found; `part_index_ = rank;` present?\n'
+            'def shuffleResetSetsPart : Bool := %s' % (ISS, 'true' if sets else 'false'))
+
+
+def shuffle_next(text):
+    """InputSplitShuffle::NextRecord / NextChunk / BeforeFirst have the modelled shape (expressions compared textually)"""
+    ok = True
+    for fn, call in (('NextRecord', 'NextRecord(out_rec)'), ('NextChunk', 'NextChunk(out_chunk)')):
+        body = ' '.join(re.sub(r'//[^\n]*', '', _block(text, r'virtual bool %s\(Blob \*out_\w+\) \{' % fn)).split())
+        want = ('{ if (num_shuffle_parts_ > 1) { if (!source_->%s) { if (cur_shuffle_idx_ == num_shuffle_parts_ - 1) { return false; } '
+                '++cur_shuffle_idx_; int idx = shuffle_indexes_[cur_shuffle_idx_] + part_index_ * num_shuffle_parts_; '
+                'source_->ResetPartition(idx, num_parts_ * num_shuffle_parts_); return %s; } else { return true; } } else { '
+                'return source_->%s; } }' % (call, call, call))
+        ok = ok and body == want
+    bf = ' '.join(re.sub(r'//[^\n]*', '', _block(text, r'virtual void BeforeFirst\(void\) \{')).split())
+    want_bf = ('{ if (num_shuffle_parts_ > 1) { std::shuffle(shuffle_indexes_.begin(), shuffle_indexes_.end(), trnd_); '
+               'int idx = shuffle_indexes_[0] + part_index_ * num_shuffle_parts_; '
+               'source_->ResetPartition(idx, num_parts_ * num_shuffle_parts_); cur_shuffle_idx_ = 0; } else { source_->BeforeFirst(); } }')
+    ok = ok and bf == want_bf
+    return ('-- %s InputSplitShuffle::NextRecord / NextChunk / BeforeFirst: statement-for-statement the shape the model mirrors\n'
+            'def shuffleShapeOk : Bool := %s' % (ISS, 'true' if ok else 'false'))
+
+
+ITEMS += [
+    {'name': 'shuffleResetSetsPart', 'file': ISS, 'custom': shuffle_reset},
+    {'name': 'shuffleShapeOk', 'file': ISS, 'custom': shuffle_next},
+]
